@@ -71,6 +71,22 @@ def peaks_validate(chk, q, rng):
                     s2 = [3 * v - 4 for v in s]
                     out2 = find_peaks(np.array(s2, dtype=dts[(si + 1) % 4 if (si + 1) % 4 != 0 or True else 0] if dts[(si + 1) % 4] not in ('uint8',) else 'int16'), d, 3 * h - 4 if si % 2 else float(3 * h - 4))
                     cases.append({'sig': s2, 'd': d, 'h': 3 * h - 4, 'out': [int(x) for x in out2]})
+    # long signals (beyond any internal blocking): a small signal followed by a strictly decreasing tail of 200000 samples starting below its last
+    # sample - the tail holds no local maximum and does not change which samples of the head are, so the peaks are peaks of the head, judged by TLC on it
+    heads = [s_ for s_ in sigs if 3 <= len(s_) <= 9][:: max(1, len([s_ for s_ in sigs if 3 <= len(s_) <= 9]) // (12 if q else 60))]
+    for hi_, s_ in enumerate(heads):
+        for tail_len in (70000, 200003):
+            tail = [s_[-1] - 1 - k for k in range(tail_len)]
+            arr = np.array(list(s_) + tail, dtype=['int64', 'float64', 'int32'][hi_ % 3])
+            d_ = [1, 2, 3, 5][hi_ % 4]
+            out = [int(x) for x in find_peaks(arr, d_, 0 if hi_ % 2 else -np.inf)]
+            if any(x >= len(s_) for x in out):
+                chk.count(('P-long', hi_, tail_len), nontrivial=True)
+                chk.violation('find_peaks:output is an acceptable peak set (candidates, pairwise distance, every dropped candidate dominated by a close candidate)',
+                              {'property': 'C19', 'part': 'peaks', 'sig': s_, 'tail': f'{tail_len} strictly decreasing samples from {s_[-1] - 1}', 'd': d_, 'out': out[:10]},
+                              f'find_peaks({s_} + {tail_len} strictly decreasing samples, {d_}) returns {[x for x in out if x >= len(s_)][:4]}: samples of a falling slope')
+            else:
+                cases.append({'sig': list(s_), 'd': d_, 'h': 0, 'out': out})
     verdicts = {}
     CH = 60000
     for c0 in range(0, len(cases), CH):
@@ -166,6 +182,16 @@ def moving(chk, q):
                     chk.violation(f'{name}:equals the naive statistic of every window', {'property': 'C19', 'part': 'moving', 'op': name, 'signal': s, 'window': w, 'axis': -1, 'dtype': str(arr.dtype),
                                                                                          'got': got.tolist(), 'expected': [None if x is None else float(x) for x in want]},
                                   f'{name}({s}, {w}) = {got.tolist()} expected {[None if x is None else float(x) for x in want]}')
+        if i % 4 == 0 and len(s) >= 2:
+            # the same signal riding on a large offset (an ADC trace around 100000 with a swing of a few codes): variance and standard deviation do not change
+            arr2 = np.array(s, dtype='int64') + 100000
+            for w in range(2, len(s) + 1):
+                for name2, fn2, expv in (('moving_var', sp.moving_var, [fr(x['var']) for x in e['win'][w - 1]]), ('moving_std', sp.moving_std, [math.sqrt(fr(x['var'])) for x in e['win'][w - 1]])):
+                    got = np.asarray(fn2(arr2 if i % 8 else arr2.astype('float64'), w))
+                    chk.count((name2, tuple(s), w, 'offset'), nontrivial=True)
+                    if len(got) != len(expv) or any((not np.isfinite(g)) or abs(float(g) - float(x_)) > 2e-4 for g, x_ in zip(got, expv)):
+                        chk.violation(f'{name2}:equals the naive statistic of every window', {'property': 'C19', 'part': 'moving', 'op': name2, 'signal': [v + 100000 for v in s], 'window': w, 'axis': -1, 'dtype': str(arr2.dtype),
+                                                                                              'got': got.tolist(), 'expected': [float(x_) for x_ in expv]}, f'{name2}({s} + 100000, {w}) = {got.tolist()} expected {[float(x_) for x_ in expv]}')
         chk.traces_validated += 1
     # values whose running sums are not representable in the input's own half / single precision (1024 + 1024 + 1 in float16, 2^24 + 1 in float32)
     for alpha, dt in (('{0, 1, 1024}', 'float16'), ('{0, 1, 16777216}', 'float32')):
